@@ -57,10 +57,11 @@ class RecorderConverter(list):
         super().__init__()
         self.log = log
 
-    def __call__(self, symbol):
-        self.log.append(symbol.name)
-        self.append(symbol.name)
-        return '# recorded\n' + symbol.code
+    def __call__(self, item, /):
+        # (the documented interface: a callable that takes a symbol - whatever it calls its parameter)
+        self.log.append(item.name)
+        self.append(item.name)
+        return '# recorded\n' + item.code
 
 
 _STATEFUL = {}
@@ -79,7 +80,8 @@ def make_converter(kind, log):
         conv.tag = 'state%d' % (_STATEFUL.get('n', 0) % 3)
         return conv
 
-    def conv(symbol):
+    def conv(sym):
+        symbol = sym
         log.append(symbol.name)
         code = symbol.code
         if kind == 'identity':
